@@ -669,7 +669,7 @@ func keyKindOfCert(x *x509.Certificate) string {
 
 func init() {
 	register(&mc.Check{
-		ID: "C07", Title: "Content returned from an envelope obeys the Notary signed-attribute rules", DesignRef: "DESIGN.md §4 C07",
+		ID: "C07", Extra: envRacePass("C07"), Title: "Content returned from an envelope obeys the Notary signed-attribute rules", DesignRef: "DESIGN.md §4 C07",
 		Rule: fmt.Sprintf("16 conformant header sets (2 formats x 2 schemes x expiry x extended attributes) produced and validly signed by the independent encoder, plus %d named deviations in 11 slots (payload, scheme header, time header, other scheme's time header, expiry, crit, chain, alg, cty, unsigned parts, duplicates), "+
 			"each tagged must-reject / recorded-only / benign: every single deviation and every pair across slots (thorough: every triple on P-256, pairs on RSA-2048 and P-521). Oracle: soundness on the description and on the returned value, completeness for conformant sets, Verify => Content with an identical result.", len(c07Devs)),
 		Assumptions: []string{"deviations of one slot are never combined (no cancellation); a must-reject deviation is local to its slot", "recorded-only deviations (statement silent) are enumerated and their verdict recorded but not judged",
